@@ -8,12 +8,12 @@ CHECKS = {
              text="Bounded symbolic model checking: every feasible path of the real match() over an abstract map (all distances symbolic) on the listed small graphs and trace lengths is closed by an unsat query against a brute-force optimum over all walks; holds for all distance tables, thresholds within the bounds, not beyond.",
              note="Exact real arithmetic for symbolic values (no rounding); AbsMap geometric contract; halfnorm formula shim; graphs <=3-4 nodes, T<=3; incomplete enumerations are flagged per instance in the evidence."),
  'C13': dict(tech="symbolic execution of real dist_euclidean kernels + z3 nlsat refutation of nearest-point/minimality claims", ref="5/C13",
-             text="Bounded symbolic checking of the planar kernels: all coordinates symbolic for distance/project/point-to-segment/box and for the structure of segment-to-segment; minimality of segment-to-segment on the stated segment families.",
+             text="Bounded symbolic checking of the planar kernels: all coordinates symbolic for distance/project/point-to-segment (incl. a symbolic delta argument)/box and for the structure of segment-to-segment; minimality of segment-to-segment on the stated segment families.",
              note="Reals instead of doubles; sqrt/isclose/min/max shims; segment-to-segment minimality in general position outside the claim."),
 }
 CHECKS.update({
  'C02': dict(tech="one-step symbolic execution of the real BaseMatching.next / logprob_trans / update from arbitrary predecessors; symbolic execution of real match()/widen/extend over abstract geometry; in-solver comparison with an independent re-derivation of the documented score model", ref="5/C02",
-             text="Bounded symbolic model checking: the fields reported along the best path (log-probability, length, observation distance, accumulated distances) equal an independently re-derived model value on every path of the real code within the bounds; update() copies every slot for both matching classes.",
+             text="Bounded symbolic model checking: the fields reported along the best path (log-probability, length, observation distance, accumulated distances) equal an independently re-derived model value on every path of the real code within the bounds; update() carries over every slot of the winner for all matching classes (token identity, and value equality for arbitrary symbolic numeric fields).",
              note="Reals for symbolic values; AbsMap contract; tolerance 1e-8; graphs <=4 nodes, T<=3, histories of <=3 operations; incomplete enumerations flagged per instance."),
  'C07': dict(tech="symbolic execution of real LatticeColumn.prune against an independent specification + relational symbolic execution of match() with/without width and widening sequences (z3 LRA/NRA)", ref="5/C07",
              text="Bounded symbolic model checking of prune (all weak orderings incl. exact ties of n<=4(5) symbolic scores, stop/delayed/threshold variants) and of pruned-vs-unpruned / widening monotonicity over abstract geometry.",
@@ -21,11 +21,11 @@ CHECKS.update({
 })
 CHECKS.update({
  'C03': dict(tech="symbolic execution of real match() (unique on/off in one path) over abstract geometry with symbolic cut-offs; alignment claims + index truthfulness against an admissible-walk oracle (z3)", ref="5/C03",
-             text="Bounded symbolic model checking: on every path of the real match() within the bounds the best path visits the observations in order with one emitting state each, the returned list is that path (collapsed iff unique), and the index / empty result agree with the existence of admissible walks.",
+             text="Bounded symbolic model checking: on every path of the real match() within the bounds the best path visits the observations in order with one emitting state each, the returned list is that path (collapsed iff unique), and the index / empty result agree with the existence of admissible walks; the same at DEBUG log level.",
              note="Reals; AbsMap contract; index truthfulness only emitting-only & unpruned; graphs <=4 nodes, T<=3."),
- 'C04': dict(tech="symbolic execution of real match()/widen/extend over abstract geometry against an adjacency oracle from the graph dictionary; CrossHair on node_path_to_only_nodes", ref="5/C04",
+ 'C04': dict(tech="symbolic execution of real match()/widen/extend over abstract geometry, and of match / map change / match on the real InMemMap with symbolic observations, against an adjacency oracle from the graph dictionary; CrossHair on node_path_to_only_nodes", ref="5/C04",
              text="Bounded symbolic model checking: every state on every reachable best path exists in the map and consecutive states are moves the map offers (incl. linked pair, one-way, dead ends, self-listing on/off); nodes-only view computed by the real code is adjacent and repeat-free; CrossHair confirms node_path_to_only_nodes over all int labels for the stated sequence shapes.",
-             note="AbsMap mirrors InMemMap's neighbour listing; SqliteMap neighbour relation is covered by C12; graphs <=4-5 nodes."),
+             note="AbsMap mirrors InMemMap's neighbour listing (the real InMemMap neighbour queries run in the real-map instances: oneway3/oneway4/line3, del_node / purge / add_node between two matches); SqliteMap neighbour relation is covered by C12; graphs <=4-5 nodes."),
  'C09': dict(tech="symbolic execution of operation sequences with the invariant asserted after every operation; inductive-step harness on LatticeColumn.upsert; z3 QF_FP lemma generated from the AST of BaseMatching.next", ref="5/C09",
              text="Bounded symbolic model checking of lattice well-formedness after each of <=3 operations (match, widen, extend, continue_with_distance, repeated match); one-step upsert harness from an arbitrary entry (identity of filed entries preserved, better candidate kept); IEEE-754 guard lemma (emitting Float64, non-emitting Float16/32).",
              note="Reals except the FP lemma; non-emitting FP lemma only at reduced width (stated); sequences longer than 3 outside."),
@@ -35,9 +35,9 @@ CHECKS.update({
              text="Bounded symbolic model checking: on every joint path of the two runs the matched prefix with non-emitting states is not shorter and, for complete matches, the best probability not lower.",
              note="Abstract geometry is a superset of real geometries (candidates only reported after concrete replay); first-order families; graphs <=4 nodes, T<=3."),
  'C08': dict(tech="relational symbolic execution: incremental schedule vs one-shot match of the real matcher in one path over abstract geometry (z3)", ref="5/C08",
-             text="Bounded symbolic model checking: every one- and two-cut extension schedule gives the same index and probability (path up to exact ties) as a fresh one-shot match, cut-offs symbolic.",
+             text="Bounded symbolic model checking: every one- and two-cut extension schedule gives the same index and probability (path up to exact ties) as a fresh one-shot match, cut-offs symbolic, lattice width None/1/2.",
              note="Reals; AbsMap contract; T<=4 on 2-edge graphs else 3."),
- 'C10': dict(tech="relational symbolic execution under engine-chosen iteration/listing orders (values_all stub, edge/node/neighbour listing) in one path; relational inductive step on _match_non_emitting_states with the columns filed in two orders (z3)", ref="5/C10",
+ 'C10': dict(tech="relational symbolic execution under engine-chosen iteration/listing orders (values_all stub, edge/node/neighbour listing) in one path; relational inductive step on _match_non_emitting_states with the columns filed in two orders, incl. routes that reconverge inside the non-emitting search (z3)", ref="5/C10",
              text="Bounded symbolic model checking: for every permutation of set iteration order and map listing order within the bounds the index and probability coincide (paths only differ on exact ties).",
              note="LatticeColumn.values_all replaced by an order-parametrised stub that over-approximates hash order; AbsMap contract."),
  'C19': dict(tech="relational symbolic execution of real match() at ERROR and DEBUG level in one path over abstract geometry; relational inductive step on _match_non_emitting_states at both levels (z3)", ref="5/C19",
@@ -67,17 +67,17 @@ CHECKS.update({
 })
 CHECKS.update({
  'C18': dict(tech="symbolic execution of the real SqliteMap build/from_file code over a parsing SQL shim with symbolic cells (shim validated against real sqlite3 each run; counterexamples replayed on real sqlite3); InMemMap pickle round-trip through the real pickle", ref="5/C18",
-             text="Bounded symbolic checking: for each build script in the list (single/bulk inserts, deferred commit/index, re-index, ignore-doubles) with symbolic coordinates and query, every answer after 1-2 reopen cycles equals the answer before closing, for both metric flags.",
+             text="Bounded symbolic checking: for each build script in the list (single/bulk inserts, deferred commit/index, re-index, ignore-doubles, every kind of write as the last one before closing) with symbolic coordinates and query, every answer after 1-2 reopen cycles equals the answer before closing, for both metric flags.",
              note="SQL shim models only the statements the code issues (parsed at run time) and the float32 R-tree rounding as an interval; 3 nodes; pyproj/rtree absent."),
 })
 CHECKS.update({
  'C12': dict(tech="relational symbolic execution: the same symbolic map in the real InMemMap and the real SqliteMap (parsing SQL shim validated against sqlite3; replay on real sqlite3), answers and an edge matcher compared per path (z3)", ref="5/C12",
-             text="Bounded symbolic checking: node set, coordinates, neighbours (mod self), edge neighbours, edge listing, bounding box and box-restricted node listing (up to the float32 rounding of the R-tree) coincide for all coordinates / boxes within the bounds; an edge matcher gives the same index and probability on both backends.",
+             text="Bounded symbolic checking: node set, coordinates, neighbours (mod self), edge neighbours, edge listing, bounding box and box-restricted node listing (up to the float32 rounding of the R-tree) coincide for all coordinates / boxes within the bounds; an edge matcher gives the same index and probability on both backends; the SQLite map filled node by node and through its bulk interface (add_nodes / add_edges).",
              note="2-4 integer-labelled nodes; matcher part on a concrete unit-square layout with symbolic observations; float32 band 2^-21 relative."),
 })
 CHECKS.update({
  'C14': dict(tech="symbolic execution of the real dist_latlon functions in an exact angle algebra ((sin,cos) pairs over z3 reals), identities against 3-D unit vectors decided by z3 nlsat; segment-to-segment structure over stand-ins with the real planar kernel; replay on doubles against an independent vector computation", ref="5/C14",
-             text="Bounded/partial symbolic checking: haversine distance = great-circle angle (all points); destination inverts distance and bearing; box_around_point contains the disc in latitude (longitude bounds and parts of point-to-segment are attempted and reported inconclusive when nlsat returns unknown); point-to-segment distance/point consistency and end-point swap on the decided paths.",
+             text="Bounded/partial symbolic checking: haversine distance = great-circle angle (all points); destination inverts distance and bearing; box_around_point contains the disc in latitude (longitude bounds and parts of point-to-segment are attempted and reported inconclusive when nlsat returns unknown); point-to-segment distance/point consistency and end-point swap on the decided paths; on equatorial / meridian segments of ~3 m and near segment ends additionally: no point of the segment is nearer than the reported one.",
              note="Exact reals; ti as a ratio of angles only through 0/1 clamping; the centimetre agreement of the planar-frame segment-to-segment routine is outside (transcendental error bound); inconclusive paths are counted, never reported as passes."),
 })
 NA = {
